@@ -133,7 +133,7 @@ for n, lens in ((1, (1,)), (2, (2, 3, 4, 5)), (3, (3, 4, 5))):
                     UC("c04-cs-prefix-" + tag, "score", "cs_prefer_prefix::<%s>()" % shape, {"C04": "quick"}, "bounded", SCORE_FNS,
                        "calculate_score: prefer_prefix raises the score by 0..=8 (exactly 8 at position 0)", unwind=max(h + 3, 7), bound=bound, cost=2)
 U("c10-prefix-term-no-overflow", "score", "c10_prefix_term_no_overflow", {"C10": "quick", "C04": "quick"}, "complete", SCORE_FNS,
-  "for every match start position < 70000 (all base configs, prefer_prefix on): calculate_score's prefix term neither overflows nor leaves 16..=44 for a one-character match")
+  "for every match start position < 24000 (beyond the u16/3 threshold 21846; all base configs, prefer_prefix on): calculate_score's prefix term neither overflows nor leaves 16..=44 for a one-character match")
 for n in (2520, 2521, 2600):
     UC("c03-cs-long-needle-%d" % n, "score", "cs_long_needle_no_wrap::<%d>()" % n, {"C03": "quick" if n == 2521 else "thorough", "C10": "quick" if n == 2521 else "thorough"}, "bounded", SCORE_FNS,
        "calculate_score on %d consecutive matches: no arithmetic overflow, result == unwrapped value capped at u16::MAX" % n, unwind=n + 3,
@@ -409,7 +409,7 @@ for pos in (0, 1, 2):
                 continue
             UC("c14-new-inner-unicode-p%d-c%d-%s" % (pos, case, "esc" if esc else "noesc"), "pattern",
                "new_inner_unicode::<%d,%d,true,%s>()" % (pos, case, "true" if esc else "false"), {"C14": "quick"}, "bounded", ["pattern::Atom::new_inner (code-point branch)"],
-               "Atom::new_inner on 3 characters (two symbolic ASCII + one of {ä Ä ß é É à} at position %d), CaseMatching::%s, Normalization::Smart, escape_whitespace=%s: needle == unescaped text (folded under Ignore), smart case / smart normalisation flags as documented" % (pos, {1: "Ignore", 2: "Smart"}[case], esc),
+               "Atom::new_inner on 3 characters (two symbolic ASCII + one of {ä Ä ß é É à µ ς ſ Σ σ} at position %d), CaseMatching::%s, Normalization::Smart, escape_whitespace=%s: needle == unescaped text (folded under Ignore), smart case / smart normalisation flags as documented" % (pos, {1: "Ignore", 2: "Smart"}[case], esc),
                unwind=12, bound="3 characters, one non-ASCII from the model domain; unicode-segmentation feature OFF; char-level functions = model table", cost=8, timeout=1500, stubs=NI_STUBS, features=NOSEG)
 for L in (2, 3, 4):
     UC("c14-split-atoms-%d" % L, "pattern", "split_atoms::<%d>()" % L, {"C14": "quick" if L <= 3 else "thorough"}, "bounded", ["pattern::pattern_atoms"],
@@ -423,20 +423,23 @@ U32_FNS = ["utf32_str::has_ascii_graphemes", "Utf32Str::new", "Utf32String::from
 for L in (2, 3, 4):
     UC("c17-ascii-decision-%d" % L, "utf32", "k17_ascii_decision::<%d>()" % L, {"C17": "quick"}, "bounded", U32_FNS[:1],
        "has_ascii_graphemes(s) <=> s is ASCII and contains no CR LF, for every valid UTF-8 string of %d bytes" % L, unwind=L + 4, bound="all valid UTF-8 strings of exactly %d bytes" % L, cost=4)
-for L in (0, 2, 3):
-    UC("c17-constructors-ascii-%d" % L, "utf32", "k17_constructors_ascii::<%d>()" % L, {"C17": "quick"}, "bounded", U32_FNS,
-       "ASCII text without CR LF: Utf32Str::new gives Ascii(original bytes); From<&str>, From<String>, From<Box<str>>, From<Cow> give equal content", unwind=L + 5, bound="all ASCII strings of %d bytes; unicode-segmentation feature OFF" % L, cost=6, features=NOSEG, timeout=1500)
+WHICHNAME = {0: "Utf32Str::new", 1: "From<&str>", 2: "From<String>", 3: "From<Box<str>>", 4: "From<Cow::Borrowed>", 5: "From<Cow::Owned>"}
+for L in (0, 2):
+    for w in range(6):
+        UC("c17-constructor-ascii-%d-w%d" % (L, w), "utf32", "k17_constructor_ascii::<%d,%d>()" % (L, w), {"C17": "quick"}, "bounded", U32_FNS,
+           "ASCII text without CR LF: %s gives the ASCII form holding the original bytes" % WHICHNAME[w], unwind=L + 5, bound="all ASCII strings of %d bytes; unicode-segmentation feature OFF" % L, cost=5, features=NOSEG, timeout=1500)
 for L in (2, 3):
-    UC("c17-constructors-unicode-%d" % L, "utf32", "k17_constructors_unicode::<%d>()" % L, {"C17": "quick" if L == 2 else "thorough"}, "bounded", U32_FNS,
-       "non-ASCII or CR LF text: code-point form; borrowed/owned/Cow/buffer-based constructors produce the same content", unwind=L + 5, bound="all valid UTF-8 strings of %d bytes that are not plain ASCII; unicode-segmentation feature OFF (graphemes() == chars())" % L, cost=8, features=NOSEG, timeout=1500)
+    for w in (1, 2, 4):
+        UC("c17-constructor-unicode-%d-w%d" % (L, w), "utf32", "k17_constructor_unicode::<%d,%d>()" % (L, w), {"C17": "quick" if L == 2 else "thorough"}, "bounded", U32_FNS,
+           "non-ASCII or CR LF text: %s gives the code-point form, equal to what Utf32Str::new produces" % WHICHNAME[w], unwind=4 * L + 6, bound="all valid UTF-8 strings of %d bytes that are not plain ASCII; unicode-segmentation feature OFF (graphemes() == chars())" % L, cost=7, features=NOSEG, timeout=1500)
 ACC_FNS = ["Utf32Str::len", "Utf32Str::is_empty", "Utf32Str::get", "Utf32Str::first", "Utf32Str::last", "Utf32Str::chars", "Chars::next", "Chars::next_back", "Utf32Str::slice", "Utf32Str::slice_u32"]
 for L in (0, 3, 4):
     UC("c17-accessors-ascii-%d" % L, "utf32", "k17_accessors_ascii::<%d>()" % L, {"C17": "quick"}, "bounded", ACC_FNS,
        "Utf32Str::Ascii: len, is_empty, get, first, last, chars (both directions), slice / slice_u32 for every range form agree with the content", unwind=L + 4, bound="every ASCII content of length %d, every valid range" % L, cost=4)
     UC("c17-accessors-unicode-%d" % L, "utf32", "k17_accessors_unicode::<%d>()" % L, {"C17": "quick"}, "bounded", ACC_FNS,
-       "Utf32Str::Unicode: same", unwind=L + 4, bound="every char content of length %d, every valid range" % L, cost=4)
+       "Utf32Str::Unicode: same", unwind=4 * L + 6, bound="every char content of length %d, every valid range" % L, cost=4)
 UC("c17-owned-accessors-3", "utf32", "k17_owned_accessors::<3>()", {"C17": "quick"}, "bounded", ["Utf32String::len", "Utf32String::is_empty", "Utf32String::slice", "Utf32String::slice_u32"],
-   "Utf32String accessors agree with Utf32Str's", unwind=8, bound="every char content of length 3, every valid range", cost=4)
+   "Utf32String accessors agree with Utf32Str's", unwind=18, bound="every char content of length 3, every valid range", cost=4)
 UC("c17-canary", "utf32", "k17_canary()", {"C17": "quick"}, "bounded", [], "canary", unwind=6, expect="fail", no_cover=True)
 
 # ---------------------------------------------------------------------------
